@@ -129,8 +129,8 @@ func init() {
 	explore.RegisterBFS("c30", c30RunBFS)
 	explore.RegisterReplayer("C30", func(raw json.RawMessage) (bool, []string) {
 		var r struct {
-			S      string `json:"s"`
-			Publish bool  `json:"publish"`
+			S       string `json:"s"`
+			Publish bool   `json:"publish"`
 		}
 		json.Unmarshal(raw, &r)
 		got := mqtt.IsValidFilter(r.S, r.Publish)
